@@ -7,6 +7,21 @@ from lib import common as C
 BUDGET = {"quick": 12000, "thorough": 300000}
 
 
+def _translated_functions():
+    """The `go_*` definitions gen/TypeFuns.v holds on this run (written by translator/gostr.go from proto/column.go)."""
+    try:
+        src = open(os.path.join(C.COQ, "gen", "TypeFuns.v")).read()
+    except OSError:
+        return []
+    if "TRANSLATION FAILED" in src:
+        return []
+    for line in src.splitlines():
+        line = line.strip()
+        if line.startswith("translated:"):
+            return line[len("translated:"):].split()
+    return []
+
+
 def _run_eval(case_lines, timeout=3000):
     """common.run_eval with a large stack: the extracted tokenizer recurses once per character and the
     deep-nesting cases are long."""
@@ -70,7 +85,12 @@ def explore(res, scale=1, seed=None):
     if not ok:
         res.tie_broken("extraction", "vm_compute inside Coq disagrees with the extracted evaluator:\n" + slog)
     os.remove(out)
+    res.extra["translated_functions"] = _translated_functions()
     res.extra["rule"] = (
+        "ColumnType.Base, Elem, isDecimalN, decimalDowncast, normalizeCommas, Conflicts and IsArray are TRANSLATED from "
+        "proto/column.go on every run (translator/gostr.go -> coq/gen/TypeFuns.v) and proved equal to the model for all "
+        "byte strings (props/C19.v type_functions_are_source; the Conflicts theorems are restated over the translation): "
+        "an edit that changes their meaning, or leaves the translated fragment, breaks the proof step of this check. "
         "cases come from the seeded generators of harness/c19.go: a type-string grammar (every base, every legal "
         "parameterisation, compositions to depth 4), a malformed stream (truncation, byte edits, empty/unbalanced "
         "parentheses, non-numeric parameters, case changes, arbitrary bytes, nesting to depth 10000), pools for "
@@ -78,6 +98,10 @@ def explore(res, scale=1, seed=None):
         "implementation produced a value for it (counted per distinct case) or a failure class (counted once per "
         "case kind and class)")
     res.assumptions = [
+        "the MiniGo-strings translation (translator/gostr.go: fragment grammar, Go slice bounds as go_slice, int as Z for "
+        "index arithmetic only, fuel = length of the receiver) and its primitive table (strings.IndexByte/LastIndexByte/"
+        "Cut/Split/Join/TrimSpace/HasPrefix, strconv.Atoi -> model/TypeStr.v) are trusted; the primitives are exercised "
+        "against the real library through the correspondence run",
         "time.LoadLocation is an oracle (Section variable zone); the harness tabulates it per case",
         "strings.ToLower is uninterpreted (Section variable to_lower): ColInterval.Infer's outcome is proved independent of it",
         "reflection in ColAuto.Infer is modelled by the regenerated method table (zero-argument, one-result Array/Nullable/LowCardinality methods)",
